@@ -736,7 +736,7 @@ impl Line {
              * be liberal in what you accept...
              */
             for ch in line.iter() {
-                if !(*ch as char).is_whitespace() {
+                if !ch.is_ascii_whitespace() {
                     break;
                 }
                 start += 1;
@@ -773,7 +773,7 @@ impl Line {
             let mut action = String::new();
             let mut path = PathBuf::new();
             let mut value = String::new();
-            for s in line.split(|c| (*c as char).is_whitespace()) {
+            for s in line.split(|c| c.is_ascii_whitespace()) {
                 /* Skip extra whitespace */
                 if s.is_empty() {
                     continue;
